@@ -60,6 +60,8 @@ def programs(draw, tier):
     return {"items": items, "kind": draw(st.sampled_from(["agen", "aclass", "aplain", "send", "list", "iter", "seq", "loan"])),
             "susp": draw(st.integers(0, 1)), "ops": ops, "raise_at": raise_at,
             # what leaves the block at raise_at: an ordinary error, or what a generator / task shutdown delivers
+            # the underlying iterator's own aclose() fails (once) and leaves it open
+            "cfault": draw(st.sampled_from([False, False, False, True])),
             "exit_exc": draw(st.sampled_from(["Fault", "Fault", "GeneratorExit", "KeyboardInterrupt",
                                               "StopAsyncIteration", "CancelledError"])),
             "mode": draw(st.sampled_from(["hooks", "bare"]))}
@@ -74,6 +76,9 @@ def run_program(case, cancel_at=None):
     items = mats(case["items"])
     kind = case["kind"]
     spec = {"fl": kind if kind not in ("send", "loan") else "aclass", "susp": case["susp"]}
+    cfault = bool(case.get("cfault")) and kind in ("aclass", "aplain", "send")
+    if cfault:
+        spec.update(cfault="LookupError", cfault_open=True)
     if kind in ("send", "loan"):
         src = SendSource(ctx, "u", items, spec)
     else:
@@ -164,8 +169,19 @@ def run_program(case, cancel_at=None):
     ops = case["ops"]
 
     async def block(base, depth, stack, scopes=()):
+        handle_of_this_level = []
+        try:
+            await _block(base, depth, stack, scopes, handle_of_this_level)
+        finally:
+            # however the scope was left (also when its own exit failed) its handle is dead from now on
+            for h in handle_of_this_level:
+                if h not in dead:
+                    dead.append(h)
+
+    async def _block(base, depth, stack, scopes, handle_of_this_level):
         scope = a.scoped_iter(base)
         async with scope as h:
+            handle_of_this_level.append(h)
             stack = stack + [h]
             scopes = scopes + (scope,)
             while pos[0] < len(ops):
@@ -207,7 +223,6 @@ def run_program(case, cancel_at=None):
                         await apply_tool(target, op[2], op[3], op[4], op[5])
                 if closed_now():
                     fail("underlying-closed-inside-block", f"after op {i}: {op}")
-        dead.append(h)
         if depth > 1 and closed_now():
             fail("inner-scope-closed-underlying", f"depth {depth}")
 
@@ -226,19 +241,24 @@ def run_program(case, cancel_at=None):
             raise Violation(f"C08/{kind_}", f"{detail} kind={kind} mode={case['mode']} cancel_at={cancel_at}",
                             case=dict(case, cancel_at=cancel_at))
         vcase = dict(case, cancel_at=cancel_at)
-        if cancel_at and ctx.cancel_delivered:
+        if cfault and outcome[0] == "raise" and outcome[1] is src.close_fault:
+            pass  # the failure of the underlying iterator's own aclose() replaces whatever was leaving the block
+        elif cancel_at and ctx.cancel_delivered:
             if outcome[0] != "raise" or outcome[1] is not cancel:
                 raise Violation("C08/cancellation-not-propagated", repr(outcome), case=vcase)
         elif case["raise_at"] is not None and case["raise_at"] < len(ops) and outcome[0] == "raise":
             if outcome[1] is not planned:
                 raise Violation("C08/exception-replaced", repr(outcome), case=vcase)
         elif outcome[0] != "return":
-            if outcome[0] == "raise" and outcome[1] is planned:
+            if outcome[0] == "raise" and (outcome[1] is planned or (cfault and outcome[1] is src.close_fault)):
                 pass
             else:
                 expect_return(outcome, "C08/program")
         # after the outermost exit
-        if observable:
+        if cfault:
+            if not src.close_calls:
+                raise Violation("C08/underlying-not-closed-at-exit", f"kind={kind}: aclose never called", case=vcase)
+        elif observable:
             if not src.released:
                 raise Violation("C08/underlying-not-closed-at-exit", f"kind={kind} outcome={outcome[0]}", case=vcase)
             if src.close_calls > 1 and kind != "agen":
